@@ -1,7 +1,7 @@
 SPECIFICATION Spec
-CONSTANTS N = 4
-  MaxEdges = 16
+CONSTANTS N = 5
+  MaxEdges = 7
   Loops = FALSE
-  Mutant = "sibling_shortcut"
+  Mutant = "last_changed"
 INVARIANT Inv
 CHECK_DEADLOCK FALSE
